@@ -324,13 +324,19 @@ pub fn config_strategy(t: Tier, solvers: &'static [SolverKind]) -> BoxedStrategy
     let t0 = prop_oneof![1 => Just(0.0), 3 => gen::fl(-2.0, 2.0)];
     let min_exp = prop_oneof![1 => Just(0.0), 4 => gen::fl(0.0, 8.0)];
     let recentre = prop_oneof![1 => Just(None), 1 => gen::logu(-0.5, 0.5).prop_map(Some)];
-    (proptest::sample::select(solvers), t0, gen::logu(-3.0, -0.52), min_exp, k, gen::logu(-10.0, -2.0), recentre)
-        .prop_map(|(solver, t0, dt_max, min_exp, (k, kclass), tol, recentre)| (solver, t0, dt_max, min_exp, k, kclass, tol, recentre))
+    // one case in ten on a dyadic grid with a fixed step (start k/4, step 2^-j, whole number of steps): every time
+    // addition is exact, so boundary tests such as `time + dt >= end` meet exact equality
+    let dyadic = prop_oneof![9 => Just(None), 1 => (-8i32..=8, 2u32..=7, 1u32..=48).prop_map(Some)];
+    (proptest::sample::select(solvers), t0, gen::logu(-3.0, -0.52), min_exp, k, gen::logu(-10.0, -2.0), recentre, dyadic)
+        .prop_map(|(solver, t0, dt_max, min_exp, (k, kclass), tol, recentre, dyadic)| match dyadic {
+            None => (solver, t0, dt_max, min_exp, k, kclass, tol, recentre),
+            Some((q, j, n)) => (solver, q as f64 * 0.25, 0.5f64.powi(j as i32), 0.0, n as f64, 0u8, tol, None),
+        })
         .boxed()
 }
 
 fn strategy(t: Tier) -> BoxedStrategy<Case> {
-    (config_strategy(t, &ALL_SOLVERS), problem_any(), any::<bool>(), prop_oneof![3 => Just(false), 1 => Just(true)])
+    (config_strategy(t, &ALL_SOLVERS), prop_oneof![11 => problem_any(), 1 => problem_generic_strong()], any::<bool>(), prop_oneof![3 => Just(false), 1 => Just(true)])
         .prop_map(|((solver, t0, dt_max, min_exp, k, kclass, tol, recentre), (problem, y0), euler_both, dynamic)| Case { solver, problem, y0, t0, dt_max, min_exp, k, kclass, tol, recentre, euler_both, dynamic })
         .boxed()
 }
@@ -364,7 +370,7 @@ pub fn run(opts: &Opts) -> i32 {
     spec.exhaustive = Some("boundary sweep: 7 solvers x 4 fixed problems x interval length (j + delta) dt0, j = 0..9, delta in {-1e-9,-1e-12,0,1e-12,1e-9,0.37}".into());
     spec.essential = vec![("rejected", 0.05), ("grew", 0.05), ("startup-clipped", 0.03), ("k-long", 0.1), ("euler", 0.05), ("bdf6", 0.05), ("generic", 0.1), ("dynamic-dimension", 0.1)];
     spec.max_discard_frac = 0.1;
-    spec.rule = "generated: solver (7) x problem family P (linear constant-coefficient incl. solutions at rest, forced linear, separable, generic non-linear non-autonomous; dimension 1-4) x t0 in [-2,2] x dt_max 10^[-3,-0.52] x dt_min = dt_max 10^-[0,8] x tolerance 10^[-10,-2] (half of the cases recentred on the reference error estimate of the first trial step x 10^[-0.5,0.5]) x interval length k dt0 with k from the boundary sweep j+delta, U(0.05,12) or log-uniform up to 300/3000 steps; Euler with one or both step setters; a quarter of the cases through new_dyn(dim) with a dynamically sized state. Oracle (invariant over the yielded history, through next() and collect_vec): strictly increasing times from t0, inside the interval (slack 16 eps max|t|), gaps <= dt_max, dimension and finiteness, completed adaptive solves end at the ending time, Euler yields (t0,y0) first and every step time before the end, nothing after the end. Non-trivial = >= 3 points and (boundary-sweep case or unequal gaps). Distinct = distinct case JSON.".into();
+    spec.rule = "generated: solver (7) x problem family P (linear constant-coefficient incl. solutions at rest, forced linear, separable, generic non-linear non-autonomous, one case in twelve with sine amplitudes 5-30 times larger so that L dt_max reaches 1-10; dimension 1-4) x t0 in [-2,2] x dt_max 10^[-3,-0.52] x dt_min = dt_max 10^-[0,8] x tolerance 10^[-10,-2] (half of the cases recentred on the reference error estimate of the first trial step x 10^[-0.5,0.5]) x interval length k dt0 with k from the boundary sweep j+delta, U(0.05,12) or log-uniform up to 300/3000 steps; one case in ten on a dyadic grid with a fixed step (start k/4, step 2^-j, whole number of steps: exact time arithmetic); Euler with one or both step setters; a quarter of the cases through new_dyn(dim) with a dynamically sized state. Oracle (invariant over the yielded history, through next() and collect_vec): strictly increasing times from t0, inside the interval (slack 16 eps max|t|), gaps <= dt_max, dimension and finiteness, completed adaptive solves end at the ending time, Euler yields (t0,y0) first and every step time before the end, nothing after the end. Non-trivial = >= 3 points and (boundary-sweep case or unequal gaps). Distinct = distinct case JSON.".into();
     spec.assumptions = vec!["time comparisons carry the slack 16 eps max(|t0|,|t_end|) (solvers accumulate time in floating point)".into()];
     spec.max_shrink_iters = 600;
     run_spec(spec, opts)
